@@ -268,8 +268,10 @@ func TestC07LiveIsolation(t *testing.T) {
 		var res vrun.Result
 		ok, dump := vrun.Watchdog(120*time.Second, func() { res = runLive(c) })
 		if !ok {
-			res = vrun.Inconcl("wall-clock watchdog fired")
-			res.Witness = map[string]any{"dump_head": dump[:min(len(dump), 3000)]}
+			res = vrun.WatchdogVerdict("the case never finished")
+			if res.Verdict == vrun.Inconclusive {
+				res.Witness = map[string]any{"dump_head": dump[:min(len(dump), 3000)]}
+			}
 		}
 		return res
 	})
@@ -534,8 +536,10 @@ func TestC07ResumeSideBySide(t *testing.T) {
 			}()
 		})
 		if !ok {
-			res = vrun.Inconcl("real-time watchdog fired")
-			res.Witness = map[string]any{"dump_head": dump[:min(len(dump), 3000)]}
+			res = vrun.WatchdogVerdict("the case never finished")
+			if res.Verdict == vrun.Inconclusive {
+				res.Witness = map[string]any{"dump_head": dump[:min(len(dump), 3000)]}
+			}
 		}
 		res.Desc = s
 		return res
